@@ -17,6 +17,16 @@ Lemma kcmp_same_length_end (b s : list bytes) : length b = length s ->
   kcmp (skipn (length s) b) (skipn (length s) s) = Datatypes.Eq.
 Proof. intros H. rewrite skipn_all. rewrite <- H. rewrite skipn_all. reflexivity. Qed.
 
+Lemma scan_start_bound l s : forall j st,
+  scan_start l s j = Some st -> (j - 1 <= st < j + length l)%nat.
+Proof.
+  induction l as [|b l IH]; intros j st H; cbn [scan_start] in H; [discriminate|].
+  cbn [length]. destruct (kcmp b s).
+  - inversion H; subst. lia.
+  - apply IH in H. lia.
+  - inversion H; subst. destruct (Nat.eqb_spec j 0); lia.
+Qed.
+
 Definition opt_Z (o : option nat) : Z := match o with Some s => Z.of_nat s | None => -1 end.
 
 Lemma go_findOverlappingBlocks_model (A B : list (list bytes)) (off1 prevEnd w : nat) :
@@ -106,6 +116,78 @@ Proof.
           cbn [opt_Z]. repeat f_equal. lia.
     - intros e ((vk' & vs' & ->) & Hk). rewrite length_map_VStr in Hk.
       unfold s1 in Hk. rewrite kcmp_same_length_end in Hk by lia.
-      stepsn. eexists _, _, _. rewrite Hscan. fold s1. rewrite Hk. reflexivity. }
-  Show.
-Abort.
+      stepsn. eexists _, _, _. unfold s1 in *. rewrite Hscan, Hk. reflexivity. }
+  intros e1 (vj & vk & vs & ->).
+  destruct (scan_start (skipn (pe - 1) B) s1 (pe - 1)) as [st|] eqn:Est; cbn [opt_Z fst snd].
+  2:{ (* start == -1: return n-1, n *) stepsn. reflexivity. }
+  assert (Hst : (st < length B)%nat).
+  { apply scan_start_bound in Est. rewrite skipn_length in Est. lia. }
+  stepn. stepn.
+  replace (Z.of_nat st =? -1) with false by (symmetry; apply Z.eqb_neq; lia).
+  stepn. stepn. straight.
+  (* findEnd *)
+  set (s2 := nth (S off1) A []).
+  set (E := if (off1 <? length A - 1)%nat then scan_end (skipn st B) s2 st else None).
+  eapply (wp_seq_inv _ _ _ _
+            (fun e2 => exists vj2 vk2 vs2,
+               e2 = [VList (map v_strs A); VList (map v_strs B); VInt (Z.of_nat off1); VInt (Z.of_nat pe);
+                     VInt (Z.of_nat st); VInt (opt_Z E);
+                     VInt (Z.of_nat (length B)); vj; vk; vs; vj2; vk2; vs2])).
+  { stepn. unfold E.
+    destruct (Nat.ltb_spec off1 (length A - 1)) as [Hlast|Hlast].
+    2:{ replace (Z.of_nat off1 <? Z.of_nat (length A) - 1) with false by (symmetry; apply Z.ltb_ge; lia).
+        stepsn. eexists _, _, _. reflexivity. }
+    replace (Z.of_nat off1 <? Z.of_nat (length A) - 1) with true by (symmetry; apply Z.ltb_lt; lia).
+    assert (Hs2 : length (nth (S off1) A []) = w) by (apply same_width_nth; auto; lia).
+    stepsn.
+    eapply (wp_for_inv _ _ _ _ _ _
+              (fun e => exists j vk2 vs2,
+                 e = [VList (map v_strs A); VList (map v_strs B); VInt (Z.of_nat off1); VInt (Z.of_nat pe);
+                      VInt (Z.of_nat st); VInt (-1); VInt (Z.of_nat (length B)); vj; vk; vs;
+                      VInt (Z.of_nat j); vk2; vs2]
+                 /\ (st <= j <= length B)%nat
+                 /\ scan_end (skipn st B) s2 st = scan_end (skipn j B) s2 j)
+              (fun e => match nth 10 e VUnset with
+                        | VInt j => Z.to_nat (Z.of_nat (length B) - j)
+                        | _ => O
+                        end)).
+    { exists st, VUnset, VUnset. split; [reflexivity|]. split; [lia|reflexivity]. }
+    intros e (j & vk2 & vs2 & -> & Hj & Hscan).
+    eexists; split; [evn; reflexivity|].
+    destruct (Z.ltb_spec (Z.of_nat j) (Z.of_nat (length B))) as [Hlt|Hge].
+    2:{ eexists _, _, _. rewrite Hscan. rewrite skipn_all2 by lia. reflexivity. }
+    assert (HwB : length (nth j B []) = w) by (apply same_width_nth; auto; lia).
+    rewrite (skipn_nth_cons B j []) in Hscan by lia. cbn [scan_end] in Hscan.
+    stepn. stepn.
+    replace (Z.to_nat (Z.of_nat off1 + 1)) with (S off1) by lia.
+    eapply (wp_items_inv _ _ _ _ _ _
+              (fun k e => (exists vk2 vs2,
+                 e = [VList (map v_strs A); VList (map v_strs B); VInt (Z.of_nat off1); VInt (Z.of_nat pe);
+                      VInt (Z.of_nat st); VInt (-1); VInt (Z.of_nat (length B)); vj; vk; vs;
+                      VInt (Z.of_nat j); vk2; vs2])
+                 /\ kcmp (nth j B []) s2 = kcmp (skipn k (nth j B [])) (skipn k s2))).
+    - split; [eauto|reflexivity].
+    - intros k e x ((vk' & vs' & ->) & Hk) Hx.
+      apply (nth_error_map_inv VStr (nth (S off1) A []) k x []) in Hx. destruct Hx as [Hkw ->].
+      rewrite kcmp_skipn_step in Hk by (unfold s2; lia).
+      ev. unfold s2 in *.
+      pose proof (bcmp_flags (nth k (nth j B []) []) (nth k (nth (S off1) A []) [])) as Hfl.
+      destruct (bcmp (nth k (nth j B []) []) (nth k (nth (S off1) A []) [])) eqn:C; destruct Hfl as [Fgt Flt].
+      + repeat first [stepn | rewrite Fgt | rewrite Flt]. split; [eauto|exact Hk].
+      + repeat first [stepn | rewrite Fgt | rewrite Flt]. split.
+        * exists (S j), (VInt (Z.of_nat k)), (VStr (nth k (nth (S off1) A []) [])).
+          split; [repeat f_equal; lia|]. split; [lia|]. rewrite Hscan, Hk. reflexivity.
+        * lia.
+      + repeat first [stepn | rewrite Fgt | rewrite Flt].
+        eexists _, _, _. rewrite Hscan, Hk. reflexivity.
+    - intros e ((vk' & vs' & ->) & Hk). rewrite length_map_VStr in Hk.
+      unfold s2 in *. rewrite kcmp_same_length_end in Hk by lia.
+      stepsn. eexists _, _, _. rewrite Hscan, Hk. reflexivity. }
+  intros e2 (vj2 & vk2 & vs2 & ->).
+  (* if end == -1 { end = n }; return start, end *)
+  unfold E. destruct (off1 <? length A - 1)%nat; [destruct (scan_end (skipn st B) s2 st) as [en|]|]; cbn [opt_Z].
+  - stepn. stepn. replace (Z.of_nat en =? -1) with false by (symmetry; apply Z.eqb_neq; lia).
+    stepsn. reflexivity.
+  - stepsn. reflexivity.
+  - stepsn. reflexivity.
+Qed.
